@@ -201,8 +201,9 @@ func runTimed(sc timedScen, idx int) (*timedTrace, error) {
 		if err != nil {
 			return nil, err
 		}
-		vh.RegisterRec(sconn.RemoteAddr().String(), rec)
-		defer vh.UnregisterRec(sconn.RemoteAddr().String())
+		tkey := sconn.LocalAddr().String() + "|" + sconn.RemoteAddr().String()
+		vh.RegisterRec(tkey, rec)
+		defer vh.UnregisterRec(tkey)
 		rec.T0 = time.Now()
 		go func() {
 			layer4.VerifServerHandle(srv, &vh.ObsConn{Conn: sconn, Rec: rec})
@@ -262,8 +263,9 @@ func runTimed(sc timedScen, idx int) (*timedTrace, error) {
 			return nil, err
 		}
 		defer cc.Close()
-		vh.RegisterRec(cc.LocalAddr().String(), rec)
-		defer vh.UnregisterRec(cc.LocalAddr().String())
+		wkey := ln.Addr().String() + "|" + cc.LocalAddr().String()
+		vh.RegisterRec(wkey, rec)
+		defer vh.UnregisterRec(wkey)
 		go client(func(b []byte) error { _, err := cc.Write(b); return err }, stop)
 		// the connection ends when layer4 closes it: wait for that
 		closedSeen := func() bool {
@@ -297,8 +299,6 @@ func runTimed(sc timedScen, idx int) (*timedTrace, error) {
 			return nil, err
 		}
 		defer cc.Close()
-		vh.RegisterRec(cc.LocalAddr().String(), rec)
-		defer vh.UnregisterRec(cc.LocalAddr().String())
 		vh.RegisterRec(pc.LocalAddr().String()+"|"+cc.LocalAddr().String(), rec)
 		defer vh.UnregisterRec(pc.LocalAddr().String() + "|" + cc.LocalAddr().String())
 		rec.T0 = time.Now()
